@@ -305,6 +305,15 @@ pub fn run_c08(ctx: &mut Ctx) {
         let per = if e.name.starts_with("BoundedVec") { per * 12 } else { per };
         for _ in 0..per {
             let mut r = Rng(ctx.rng.next());
+            if e.name.starts_with("BoundedVec") {
+                // only encoded here: whether the bounded type takes the message back is what `nat.bounded` compares
+                // with the limits (a round trip that fails at a limit must not drop the message from the run)
+                let en = e.encode;
+                if let Ok(Some(bytes)) = guarded(move || en(&mut r)) {
+                    msgs.push((i, bytes));
+                }
+                continue;
+            }
             let rt = e.roundtrip;
             if let Ok(Ok((bytes, _))) = guarded(move || rt(&mut r)) {
                 msgs.push((i, bytes));
